@@ -237,10 +237,10 @@ class Facts:
         self.types = d["types"]
         self.fns = d["fns"]
         self.bodies = {}
-        from .ir import normalise_ite
+        from .ir import normalise_ite, normalise_while
         for b in d["bodies"]:
             if b.get("body") is not None:
-                b["body"] = normalise_ite(b["body"])
+                b["body"] = normalise_while(normalise_ite(b["body"]))
             self.bodies[b["id"]] = b
         self.opaque = d.get("opaque", 0)
         self._spec = {}
